@@ -874,3 +874,35 @@ def ord23_reader_position_follows_the_file(P, R, L, rule="ORD-23"):
     R.check(rule, READ_PHYS + "|a-completely-read-fragment-is-always-counted", bool(full) and not bad, where(b),
             "from the `payload bytes read >= expected` edge every path to a return (parse errors included) advances current_cursor_position and current_block_offset",
             "; ".join(sorted(set(bad))) or "complete-read edges %d" % len(full))
+
+
+# ------------------------------------------------------------------------------------------- ORD-18b a pin that the client releases
+def ord18b_client_release_collects(P, R, L, rule="ORD-18b"):
+    """DB::new_iterator pins the current version for as long as the client keeps the iterator; the clean-up registered on the
+    iterator unlinks the version (release_version).  When that was the last reference to a superseded version its table files
+    are dead from that moment, so the clean-up must also run (or schedule) DB::remove_obsolete_files - otherwise a file merged
+    away while the iterator was open stays in the directory of a fully quiesced database until the next flush, table
+    compaction or open (`nothing dead kept`).  ORD-18 is the same obligation for the pins of a compaction."""
+    RELEASE = "versioning::version_set::VersionSet::release_version"
+    GC = ("db::DB::remove_obsolete_files", "compaction::worker::CompactionWorker::schedule_task")
+    n = 0
+    for p, b in sorted(P.bodies.items()):
+        if b.kind == "closure":
+            continue
+        for c in b.calls():
+            if b.is_cleanup(c.bb) or c.name != "versioning::file_iterators::MergingIterator::register_cleanup_method" or len(c.args) < 2:
+                continue
+            cps = set(b.closure_of_operand(c.args[1])) | {o.name for o in origins(b, c.args[1]) if o.kind == "agg" and "{closure" in (o.name or "")}
+            for cp in sorted(cps):
+                cb = P.bodies.get(cp)
+                if cb is None:
+                    continue
+                R.analysed(cb)
+                if not P.fn_reaches(cp, [RELEASE], sync_only=True):
+                    continue
+                n += 1
+                ok = P.fn_reaches(cp, list(GC), sync_only=True)
+                R.check(rule, "%s|clean-up-releases-a-version-without-collecting" % cp.split("::{closure")[0], ok, "%s:%s" % (cb.file, cb.line_lo),
+                        "a clean-up that releases a version pin also reaches remove_obsolete_files (or schedules the collector)",
+                        "reaches release_version; reaches a collector: %s" % ok)
+    R.floor(rule, "iterator clean-ups that release a version", n, 1)
